@@ -58,6 +58,9 @@ fn specs() -> Vec<Spec> {
         // packet is protected on its own)
         Spec { name: "sublocked-v4", v6: false, primary: Ed25519, sub: X25519, locked: false, cheap: true },
         Spec { name: "primlocked-v6", v6: true, primary: Ed25519, sub: X25519, locked: false, cheap: true },
+        // several subkeys, the encryption subkeys are not the first ones: [signing, encryption, encryption]
+        Spec { name: "multisub-v4", v6: false, primary: Ed25519, sub: ECDH(ECCCurve::Curve25519Legacy), locked: false, cheap: true },
+        Spec { name: "multisub-v6", v6: true, primary: Ed25519, sub: X25519, locked: false, cheap: true },
         Spec { name: "outsider-p256", v6: false, primary: ECDSA(ECCCurve::P256), sub: ECDH(ECCCurve::P256), locked: false, cheap: true },
     ]
 }
@@ -99,7 +102,19 @@ fn gen(spec: &Spec) -> PoolKey {
     };
     let s2k_primary = if lock_primary { Some(cheap_s2k(&mut rng)) } else { None };
     let s2k_sub = if lock_sub { Some(cheap_s2k(&mut rng)) } else { None };
+    let multisub = spec.name.starts_with("multisub");
     let mut b = SecretKeyParamsBuilder::default();
+    if multisub {
+        b.subkey(
+            SubkeyParamsBuilder::default()
+                .version(version)
+                .key_type(KeyType::Ed25519)
+                .can_sign(true)
+                .created_at(Timestamp::from_secs(1_600_000_000))
+                .build()
+                .expect("subkey params"),
+        );
+    }
     b.version(version)
         .key_type(spec.primary.clone())
         .can_certify(true)
@@ -125,6 +140,17 @@ fn gen(spec: &Spec) -> PoolKey {
                 .build()
                 .expect("subkey params"),
         );
+    if multisub {
+        b.subkey(
+            SubkeyParamsBuilder::default()
+                .version(version)
+                .key_type(if spec.v6 { KeyType::X448 } else { KeyType::X25519 })
+                .can_encrypt(EncryptionCaps::All)
+                .created_at(Timestamp::from_secs(1_600_000_000))
+                .build()
+                .expect("subkey params"),
+        );
+    }
     let secret = b.build().expect("key params").generate(&mut rng).expect("key generation for the pool");
     let public = secret.to_public_key();
     PoolKey { name: spec.name, secret, public, password: if lock_primary || lock_sub { KEY_PW } else { "" }, v6: spec.v6, cheap: spec.cheap }
